@@ -106,11 +106,14 @@ def _count_lemmas(sc, v):
 
 def _group_chunks(path, outdir, prefix, nchunks, start_ev="Start"):
     """Split a trace of several histories (each beginning with a Start event) into chunk files of whole histories."""
-    hists, cur = [], []
+    hists, cur, curh = [], [], None
     for l in open(path).read().splitlines():
-        if json.loads(l)["ev"] == start_ev and cur:
+        e = json.loads(l)
+        # a history may begin with several Start events (one per UE context of that history)
+        if e["ev"] == start_ev and cur and (e.get("hist") != curh or "hist" not in e):
             hists.append(cur)
             cur = []
+        curh = e.get("hist", curh)
         cur.append(l)
     if cur:
         hists.append(cur)
